@@ -341,7 +341,14 @@ func init() {
 		cuts := 0
 		usedRecv := map[int]any{}
 		g.maxList = 3
-		for _, v := range canonValues(g, per) {
+		vals := canonValues(g, per)
+		// the same keyed messages again with every length-prefixed text at least eleven bytes long
+		for _, k := range keyedTypes() {
+			v := g.msgWithKey(k.Ty, k.E, true)
+			lengthenText(v)
+			vals = append(vals, v)
+		}
+		for _, v := range vals {
 			r := goEnc(v, nil, BufMode{})
 			if r.Class != "ok" {
 				continue
